@@ -193,6 +193,24 @@ class LibCalls:
                 return [(s, r if isinstance(r, Exc) else tok) for s, r in write(st, Val(cur.t, e.coerce(args[0], T, node).z))]
             if name == "reset":
                 return [(s, r if isinstance(r, Exc) else e.const_val(None)) for s, r in write(st, Val(cur.t, args[0].z))]
+        if k == "concdict" and name == "get":
+            key = e.coerce(args[0], INT, node).z
+            out = []
+            rest = []
+            for kk, cname in base.z.items():
+                if e.feasible(st, key == kk):
+                    s2 = st.fork()
+                    s2.assume(key == kk)
+                    out.append((s2, Val(CLS, None, conc=cname)))
+                rest.append(key != kk)
+            s3 = st.fork()
+            for c in rest:
+                s3.assume(c)
+            if e.feasible(s3):
+                out.append((s3, args[1] if len(args) > 1 else e.const_val(None)))
+            return out
+        if k == "symcls" and name in ("from_buffer", "from_buffer_copy"):
+            return self.from_buffer(None, args[0], st, node, symcls=base)
         if k == "cls" and name in ("from_buffer", "from_buffer_copy"):
             return self.from_buffer(base.conc, args[0], st, node, copy=(name == "from_buffer_copy"))
         h = getattr(self, f"m_{k}_{name}", None)
@@ -678,13 +696,31 @@ class LibCalls:
         self.zero_init(st, obj, bound)
         return [(st, obj)]
 
-    def from_buffer(self, cname, src: Val, st, node, copy=False):
+    def from_buffer(self, cname, src: Val, st, node, copy=False, symcls=None):
         """C.from_buffer(x): a view of the same bytes as class C.  Fields of C that coincide in
         (offset, size, kind) with fields of x's class are linked; everything else is unconstrained."""
         e = self.e
         self.use("ctypes from_buffer: reinterprets the same bytes; fields with identical offset/size/kind read the same value")
         if src.t[0] != "ref":
             raise Unsupported(f"from_buffer({tstr(src.t)})", node, e.path)
+        if src.t[1] == "Buffer":
+            # a receive buffer of the manager: the object currently viewing it (one object per read)
+            self.use("from_buffer(receive buffer): the header / payload object of the frame read last (fresh object per read, arbitrary field values within their C types)")
+            owner = e.load_field(st, src, "owner")
+            role = e.load_field(st, src, "role")
+            out = []
+            for s2, is_hdr in e.split(st, role.z == 1):
+                if is_hdr:
+                    o = e.load_field(s2, Val(ref("MessageManager"), owner.z), "hdr_obj")
+                    out.append((s2, Val(ref(cname or "MessageHeader"), o.z)))
+                else:
+                    o = e.load_field(s2, Val(ref("MessageManager"), owner.z), "data_obj")
+                    if cname is None:
+                        raise Unsupported("symbolic payload class", node, e.path)
+                    s2.assume(e.dtype_fn(o.z) == e.class_id(cname))
+                    e.classvar_facts(s2, cname)
+                    out.append((s2, Val(ref(cname), o.z)))
+            return out
         scls = src.t[1]
         sd, td = e.class_decl(scls), e.class_decl(cname)
         if td is None or not getattr(td, "ctypes", False):
